@@ -191,6 +191,7 @@ func (r *Run) classify(ws []*simsync.Waiter) {
 			continue
 		}
 		w.Tag = "seen"
+		w.Since = int64(r.Stats.SchedSteps)
 		for _, h := range r.Holds {
 			if h.Done || !strings.Contains(w.Sig, h.Sig) {
 				continue
@@ -230,6 +231,20 @@ func (r *Run) Settle() {
 		if len(cand) == 0 {
 			break
 		}
+		// canonical order: first seen (scheduling step), then site, then lock, then arrival
+		sort.SliceStable(cand, func(i, j int) bool {
+			a, b := cand[i], cand[j]
+			if a.Since != b.Since {
+				return a.Since < b.Since
+			}
+			if a.Sig != b.Sig {
+				return a.Sig < b.Sig
+			}
+			if a.MID != b.MID {
+				return a.MID < b.MID
+			}
+			return a.Seq < b.Seq
+		})
 		idx := 0
 		if len(cand) > 1 {
 			r.Stats.StepsWithChoice++
@@ -238,7 +253,7 @@ func (r *Run) Settle() {
 				r.Stats.NonNatural++
 			}
 			for i := 1; i < len(cand); i++ {
-				if cand[i].Sig == cand[i-1].Sig {
+				if cand[i].Sig == cand[i-1].Sig && cand[i].Since == cand[i-1].Since && cand[i].MID == cand[i-1].MID {
 					r.Stats.Twins++
 					break
 				}
